@@ -5,16 +5,16 @@
 (* print, per state, the observations the specification predicts (PrintT CASE) for the Go harness.                *)
 EXTENDS FzfFields, Json, TLC
 
-CONSTANTS Alphabet,     \* symbols a line is built from
-          MaxLen,       \* longest line
+CONSTANTS AlphaOf(_),   \* symbols a line is built from, per delimiter
+          MaxLenOf(_),  \* longest line, per delimiter
           DelimSet      \* delimiters
 
 VARIABLES line, d
 vars == <<line, d>>
 
 Init == line = <<>> /\ d \in DelimSet
-Extend == /\ Len(line) < MaxLen
-          /\ \E c \in Alphabet : line' = Append(line, c)
+Extend == /\ Len(line) < MaxLenOf(d)
+          /\ \E c \in AlphaOf(d) : line' = Append(line, c)
           /\ d' = d
 Next == Extend
 
@@ -32,11 +32,20 @@ CSpShape   == {"e~", ",", " "}
 TabShape   == {"e~", "TAB"}
 CColShape  == {"e~", ",", ":"}
 AwkOnly    == {AwkD}
-CommaDelims == {[kind |-> "str", id |-> ","], [kind |-> "re", id |-> ","], [kind |-> "re", id |-> ",+"]}
-CSpDelims  == {[kind |-> "str", id |-> ", "], [kind |-> "re", id |-> ", "]}
-TabDelims  == {[kind |-> "str", id |-> "TAB"], [kind |-> "re", id |-> "TAB"]}
-CColDelims == {[kind |-> "re", id |-> "[,:]"]}
+FullAlpha(dd) == LineAlphabet
+ShapeAlpha(dd) == CASE dd.kind = "awk" -> AwkShape
+                    [] dd.id = ", "    -> CSpShape
+                    [] dd.id = "TAB"   -> TabShape
+                    [] dd.id = "[,:]"  -> CColShape
+                    [] OTHER           -> CommaShape
+ShapeLen(dd) == IF dd.kind # "awk" /\ dd.id \in {", ", "[,:]"} THEN 6 ELSE 7      \* AWK: 4 fields need 7 symbols
+Len2(dd) == 2
+Len3(dd) == 3
+Len4(dd) == 4
+Len5(dd) == 5
+Len6(dd) == 6
 ExprAlphabet == {"0", "1", "2", "-", "."}
+ExprAlpha(dd) == ExprAlphabet
 
 -------------------------------------------------------------------------------
 (* field index expressions as character sequences *)
@@ -76,7 +85,7 @@ ASSUME ParseDocumented
 NthMenu == << <<>>,
               <<ExprN(1)>>, <<ExprN(2)>>, <<ExprN(-1)>>, <<ExprN(-2)>>, <<ExprA(2)>>, <<ExprB(2)>>, <<ExprA(-2)>>,
               <<ExprB(-2)>>, <<ExprAB(2, 3)>>, <<Dots>>, <<ExprN(2), ExprN(1)>>, <<ExprN(1), ExprN(3)>>,
-              <<ExprA(3), ExprB(2)>> >>
+              <<ExprA(3), ExprB(2)>>, <<ExprN(2), ExprA(1)>> >>
 Kinds == <<"exact", "prefix", "suffix", "fuzzy", "xexact">>
 Terms == << <<"a">>, <<"b">>, <<"e~">>, <<",">>, <<"a", "b">>, <<"a", ",">>, <<",", "a">>, <<"e~", "b">> >>
 (* combos: index c <-> (nth, kind, term), c = ((n-1)*|Kinds| + (k-1))*|Terms| + t *)
@@ -109,16 +118,19 @@ WTermOf(c) == ((c - 1) % Len(WTerms)) + 1
 PhMenu == << <<ExprN(1)>>, <<ExprN(2)>>, <<ExprN(-1)>>, <<ExprA(2)>>, <<ExprB(2)>>, <<ExprN(2), ExprN(1)>>, <<Dots>>,
              <<ExprAB(1, -2)>> >>
 
-Menu == [nth |-> NthMenu, kinds |-> Kinds, terms |-> Terms, specs |-> SpecMenu, index |-> SpecIndex,
+ParsedExprs == TLCEval([k \in 1..Len(AllExprs) |-> ParseRange(AllExprs[k])])
+ParsedNthMenu == TLCEval([n \in 1..Len(NthMenu) |-> ParseNth(NthMenu[n])])
+ParsedPhMenu == TLCEval([n \in 1..Len(PhMenu) |-> ParseNth(PhMenu[n])])
+ParsedWNth == TLCEval([n \in 1..Len(WNth) |-> ParseNth(WNth[n])])
+(* which menu entry a command line --nth really searches with (entry 1 = no --nth), per kind *)
+EffNthIndex(n, k) == LET eff == EffectiveNth(ParsedNthMenu[n], ExtendedKind(Kinds[k])) IN
+                     CHOOSE m \in 1..Len(NthMenu) : ParsedNthMenu[m] = eff
+Menu == [effnth |-> [n \in 1..Len(NthMenu) |-> [k \in 1..Len(Kinds) |-> EffNthIndex(n, k)]], nth |-> NthMenu, kinds |-> Kinds, det |-> [k \in 1..Len(Kinds) |-> Determined(Kinds[k])], terms |-> Terms, specs |-> SpecMenu, index |-> SpecIndex,
          wnth |-> WNth, wkinds |-> WKinds, wterms |-> WTerms, ph |-> PhMenu, exprs |-> AllExprs]
 
 -------------------------------------------------------------------------------
 (* exhaustive design check: every state, every expression, every combo *)
 InvPartition == Partition(line, d) /\ OffsetsExact(line, d) /\ CutsRight(line, d)
-ParsedExprs == TLCEval([k \in 1..Len(AllExprs) |-> ParseRange(AllExprs[k])])
-ParsedNthMenu == TLCEval([n \in 1..Len(NthMenu) |-> ParseNth(NthMenu[n])])
-ParsedPhMenu == TLCEval([n \in 1..Len(PhMenu) |-> ParseNth(PhMenu[n])])
-ParsedWNth == TLCEval([n \in 1..Len(WNth) |-> ParseNth(WNth[n])])
 InvSelection == LET toks == Tokenize(line, d) IN
                 /\ SelectionDocumented(toks)
                 /\ \A k \in 1..Len(AllExprs) : ParsedExprs[k].ok => SelectionContiguousT(line, toks, ParsedExprs[k])
@@ -175,17 +187,25 @@ LineCase == LET raw == TLCEval([k \in 1..Len(SpecMenu) |-> RenderRaw(line, d, Sp
                 whits |-> WHits,
                 ph |-> [k \in 1..Len(PhMenu) |-> TrimBoth(phj[k])],
                 phs |-> phj,
-                qph |-> [k \in 1..Len(PhMenu) |-> TrimBoth(qj[k])],
-                qphs |-> qj]
+                phq |-> [k \in 1..Len(PhMenu) |-> Quoted(TrimBoth(phj[k]))],
+                qph |-> [k \in 1..Len(PhMenu) |-> Quoted(TrimBoth(qj[k]))],
+                qphs |-> [k \in 1..Len(PhMenu) |-> Quoted(qj[k])]]
 (* the export takes the shortcuts above; they are the definitions of FzfFields *)
-ExportFaithful == \A k \in 1..Len(PhMenu) :
-                     /\ LineCase.ph[k] = Placeholder(line, d, ParsedPhMenu[k], FALSE)
-                     /\ LineCase.phs[k] = Placeholder(line, d, ParsedPhMenu[k], TRUE)
-                     /\ LineCase.qph[k] = QueryPlaceholder(line, ParsedPhMenu[k], FALSE)
-                     /\ LineCase.qphs[k] = QueryPlaceholder(line, ParsedPhMenu[k], TRUE)
+ExportFaithful == LET lc == LineCase IN
+                  /\ \A k \in 1..Len(PhMenu) :
+                        /\ lc.ph[k] = Placeholder(line, d, ParsedPhMenu[k], FALSE)
+                        /\ lc.phs[k] = Placeholder(line, d, ParsedPhMenu[k], TRUE)
+                        /\ lc.phq[k] = Quoted(Placeholder(line, d, ParsedPhMenu[k], FALSE))
+                        /\ lc.qph[k] = Quoted(QueryPlaceholder(line, ParsedPhMenu[k], FALSE))
+                        /\ lc.qphs[k] = Quoted(QueryPlaceholder(line, ParsedPhMenu[k], TRUE))
                   /\ \A j \in 1..Len(SpecMenu) :
-                     /\ LineCase.shown[j] = WithNthText(line, d, SpecMenu[j], SpecIndex)
-                     /\ LineCase.acc[j] = AcceptText(line, d, SpecMenu[j], SpecIndex)
+                        /\ lc.shown[j] = WithNthText(line, d, SpecMenu[j], SpecIndex)
+                        /\ lc.acc[j] = AcceptText(line, d, SpecMenu[j], SpecIndex)
+                  /\ \A c \in 1..NCombos :
+                        LET m == NthMatch(line, d, ParsedNthMenu[ComboNth(c)], Kinds[ComboKind(c)], Terms[ComboTerm(c)]) IN
+                        IF m.matched THEN \E i \in 1..Len(lc.hits) : lc.hits[i] = <<c, m.s, m.e>>
+                        ELSE \A i \in 1..Len(lc.hits) : lc.hits[i][1] # c
+EmitTok == PrintT(<<"CASE", ToJson([line |-> line, d |-> d, toks |-> Tokenize(line, d)])>>)
 EmitLine == PrintT(<<"CASE", ToJson(LineCase)>>)
 
 (* selection export: every expression of AllExprs against the fields of this line *)
@@ -193,15 +213,17 @@ SelCase == LET toks == Tokenize(line, d) IN
            [line |-> line, d |-> d, n |-> Len(toks),
             sel |-> [k \in 1..Len(AllExprs) |->
                        LET r == ParsedExprs[k] IN
-                       IF r.ok THEN (LET x == Select(toks, r) IN <<1, x.t, x.p>>) ELSE <<0, <<>>, 0>>]]
+                       IF r.ok THEN (LET x == Select(toks, r) IN <<1, x.t, IF x.t = <<>> THEN 0 ELSE x.p>>)   \* offset of an empty selection: unobservable
+                       ELSE <<0, <<>>, 0>>]]
 EmitSel == PrintT(<<"CASE", ToJson(SelCase)>>)
 
 (* expression grammar export: the "line" is an expression string; which of n = 0..4 fields it selects *)
 SelSeq(r, n) == LET lo == IF LoOf(r, n) < 1 THEN 1 ELSE LoOf(r, n)
                     hi == IF HiOf(r, n) > n THEN n ELSE HiOf(r, n)
                 IN [k \in 1..(IF hi >= lo THEN hi - lo + 1 ELSE 0) |-> lo + k - 1]
+(* the same grammar wherever an expression is written: --nth/--with-nth/--accept-nth lists and {..} placeholders *)
 ParseCase == LET r == ParseRange(line) IN
-             [e |-> line, ok |-> r.ok,
+             [e |-> line, ok |-> r.ok, oklist |-> NthOk(<<line>>), okph |-> r.ok,
               sel |-> IF r.ok THEN [n \in 1..5 |-> SelSeq(r, n - 1)] ELSE <<>>]
 EmitParse == PrintT(<<"CASE", ToJson(ParseCase)>>)
 
